@@ -123,7 +123,7 @@ package storage
 //@   option stable (*AggregationBucket).StartTime, (*AggregationBucket).EndTime, (*BucketRing).headIndex, (*BucketRing).interval, (*BucketRing).buckets, []*AggregationBucket
 //@   requires brOK(r)
 //@   ghost at call flushToStreams: c32H = r.headIndex ; c32S = r.buckets[r.headIndex].EndTime ; c32B = r.buckets[(r.headIndex + 1) % len(r.buckets)]
-//@   ghost at call AggregationBucket).Reset: check b == c32B ; check start == c32S && end == start + old(r.interval) ; check old(r.headIndex) == (c32H + 1) % old(len(r.buckets))
+//@   ghost at call AggregationBucket).Reset: check arg0 == c32B ; check arg1 == c32S && arg2 == arg1 + old(r.interval) ; check old(r.headIndex) == (c32H + 1) % old(len(r.buckets))
 
 //@ -- the per-flow step of Rollover: each DiachronicFlow is trimmed to the history that is retained NOW (after the
 //@ -- head has advanced and the oldest bucket was re-used), not to an earlier limit
